@@ -15,11 +15,15 @@ import subprocess
 from . import core, py2lean
 from . import xlate_registry as XR
 
-COUNTS = {"quick": 150, "thorough": 2500}
+COUNTS = {"quick": 100, "thorough": 1500}
 
 
 # ------------------------------------------------------------------ canonical text (same as Py.Show in PyPrim.lean)
-def show(v, ty):
+def show(v, ty, recs=None):
+    if isinstance(ty, tuple) and ty[0] == "R":
+        fields = RECS[ty[1]].fields
+        vals, tys = [v[f] for f in fields], list(fields.values())
+        return show(vals[0], tys[0]) if len(vals) == 1 else show(tuple(vals), ("T", *tys))
     if isinstance(ty, tuple) and ty[0] == "E":
         return "err " + v[1] if isinstance(v, tuple) and len(v) == 2 and v[0] == "err" else show(v, ty[1])
     if ty == "Int":
@@ -116,9 +120,35 @@ def _grid_cases():
             return [(list(x), list(k)) if nd != 2 else (x, k) for x, k in cell.calls]
         return c
 
-    return {"Grid._connect_single_cell_2d": (gen(2), call(2)), "Grid._connect_single_cell_nd": (gen("n"), call("n"))}
+    def gen_cells(rng):
+        n = rng.choice([1, 2, 2, 3, 3, 4])
+        dims = [rng.choice([1, 2, 2, 3]) for _ in range(n)]
+        g = grid(dims, False)
+        return {"self": {"dimensions": dims, "all_cells": [{"coordinate": list(c.coordinate)} for c in g.all_cells]}}
+
+    def call_cells(klass_name):
+        def c(a):
+            import mesa.discrete_space as ds
+            base = getattr(ds, klass_name)
+            calls = []
+
+            class Rec(base):
+                def _connect_single_cell_nd(self, cell, offsets):
+                    calls.append(({"coordinate": list(cell.coordinate)}, [list(o) for o in offsets]))
+                    super()._connect_single_cell_nd(cell, offsets)
+
+            g = Rec(tuple(a["self"]["dimensions"]), torus=False, random=random.Random(0))
+            del calls[:]
+            base._connect_cells_nd(g)          # the n-D path, also for 2 axes
+            return calls
+        return c
+
+    return {"Grid._connect_single_cell_2d": (gen(2), call(2)), "Grid._connect_single_cell_nd": (gen("n"), call("n")),
+            "OrthogonalMooreGrid._connect_cells_nd": (gen_cells, call_cells("OrthogonalMooreGrid")),
+            "OrthogonalVonNeumannGrid._connect_cells_nd": (gen_cells, call_cells("OrthogonalVonNeumannGrid"))}
 
 
+RECS = {r.name: r for g in XR.GROUPS.values() for r in g["recs"]}
 SUITES = {"Cells": _grid_cases}
 
 
